@@ -48,6 +48,67 @@ theorem missing_partial_fails (e : Nat) (s : Nat × Nat) (rest : List (Nat × Na
 example : sigVerifies 7 (addSignatures (partialSigs 7 [(3, 11), (5, 13)])) (11 + 13) (3 + 5) = true := by decide
 example : sigVerifies 7 (addSignatures (partialSigs 7 [(5, 13)])) (11 + 13) (3 + 5) = false := by decide
 
+/-- scalar subtraction mod n undoes addition -/
+theorem sub_add_cancel_mod (p S : Nat) : subtractSignature ((p + S) % N) p = S % N := by
+  unfold subtractSignature
+  have hN : 0 < N := Npos
+  have hp : p % N < N := Nat.mod_lt _ hN
+  rw [Nat.mod_mod]
+  by_cases h0 : p % N = 0
+  · have e1 : (p + S) % N = S % N := by rw [Nat.add_mod, h0, Nat.zero_add, Nat.mod_mod]
+    rw [h0, e1, Nat.sub_zero, Nat.mod_self, Nat.add_zero, Nat.mod_mod]
+  · rw [Nat.mod_eq_of_lt (show N - p % N < N by omega)]
+    have e : ((p + S) % N + (N - p % N)) % N = ((p + S) + (N - p % N)) % N := by
+      rw [Nat.mod_add_mod]
+    rw [e]
+    have d : p = N * (p / N) + p % N := (Nat.div_add_mod p N).symm
+    have e2 : p + S + (N - p % N) = S + N * (p / N + 1) := by
+      rw [Nat.mul_add, Nat.mul_one]; omega
+    rw [e2, Nat.add_mul_mod_self_left]
+
+/-- **`subtract_signature` undoes `add_signatures`**: taking one signer's partial signature out of
+the completed signature leaves exactly the sum of the other partial signatures — any number of
+signers, any keys, nonces and challenge. -/
+theorem subtract_inverts_add (p : Nat) (rest : List Nat) :
+    subtractSignature (addSignatures (p :: rest)) p = addSignatures rest := by
+  simp only [addSignatures, sum_cons]
+  exact sub_add_cancel_mod p rest.sum
+
+/-- … and adding it back restores the completed signature -/
+theorem subtract_then_add_restores (p : Nat) (rest : List Nat) :
+    addSignatures [subtractSignature (addSignatures (p :: rest)) p, p] = addSignatures (p :: rest) := by
+  rw [subtract_inverts_add]
+  simp only [addSignatures, sum_cons, sum_nil, Nat.add_zero]
+  rw [Nat.mod_add_mod, Nat.add_comm]
+
+/-- **what is left after subtracting signer `s` verifies as the joint partial signature of the other
+signers**: `(completed − partial_s)·G = R_rest + e·P_rest` with the summed keys and nonces of the
+rest. -/
+theorem subtracted_sig_verifies (e : Nat) (s : Nat × Nat) (rest : List (Nat × Nat)) :
+    sigVerifies e (subtractSignature (addSignatures (partialSigs e (s :: rest))) (partialSig e s.1 s.2))
+      (rest.map (·.2)).sum (rest.map (·.1)).sum = true := by
+  have h : partialSigs e (s :: rest) = partialSig e s.1 s.2 :: partialSigs e rest := by simp [partialSigs]
+  rw [h, subtract_inverts_add]
+  exact completed_sig_verifies e rest
+
+/-- … and it does NOT verify under the subtracted signer's own key and nonce unless it happens to
+coincide with that signer's partial signature mod n (two signers: `k₂ + e·x₂ ≡ k₁ + e·x₁`). -/
+theorem subtracted_sig_other_signer (e : Nat) (s t : Nat × Nat)
+    (h : partialSig e t.1 t.2 ≠ partialSig e s.1 s.2) :
+    sigVerifies e (subtractSignature (addSignatures (partialSigs e [s, t])) (partialSig e s.1 s.2)) s.2 s.1 = false := by
+  have h2 : partialSigs e [s, t] = partialSig e s.1 s.2 :: [partialSig e t.1 t.2] := by simp [partialSigs]
+  rw [h2, subtract_inverts_add]
+  simp only [addSignatures, sum_cons, sum_nil, Nat.add_zero, sigVerifies, Nat.mod_mod]
+  have ht : partialSig e t.1 t.2 % N = partialSig e t.1 t.2 := Nat.mod_eq_of_lt (Nat.mod_lt _ Npos)
+  rw [ht]
+  cases hb : (partialSig e t.1 t.2 == (s.2 + e * s.1) % N)
+  · rfl
+  · exact absurd (beq_iff_eq.1 hb) (by simpa [partialSig] using h)
+
+example : subtractSignature (addSignatures (partialSigs 7 [(3, 11), (5, 13)])) (partialSig 7 3 11) = partialSig 7 5 13 := by decide
+example : sigVerifies 7 (subtractSignature (addSignatures (partialSigs 7 [(3, 11), (5, 13), (9, 2)])) (partialSig 7 3 11))
+    (13 + 2) (5 + 9) = true := by decide
+
 /-- **masking the master key twice with the same mask restores it** (any byte strings of equal
 length; bytes below 256 not even needed) -/
 theorem mask_twice_restores : ∀ (master mask : List Nat), master.length = mask.length →
